@@ -12,6 +12,12 @@ modes, the machine variables and the player_<var> events with their kwargs; the 
                 conditions), two achievements (all eight control events), three optional game modes
                 (restart_on_next_ball or not) with their own entries, 3-5 balls per player.
   suite 'ext'   (oracle only): timers, a second game mode with devices that is not running for the next player.
+  suite 'groups' (coq/C11/GModel.v, a third layer on top of Model.step; harness/props/c11_groups.py): a shot group with
+                rotation over three persisted shots (mixed rotation_pattern, rotate / rotate_left / rotate_right,
+                enable_rotation / disable_rotation, state_names_to_not_rotate) and a score queue whose entries are
+                still being chimed out when the ball drains, both fed to the model; an achievement group (oracle only).
+  all suites:   generic cache oracle: a game mode loaded for a player who never had it loaded in this game leaves its
+                devices with the same instance attributes as the first such load on this machine.
 
 Oracle: the property's own predicates, evaluated on the implementation's dumps only (no model): other players'
 variables are untouched by an operation unless a variable_player variable names that player with `player: N` (then
@@ -54,12 +60,26 @@ RULE = ("machine + game-mode configuration drawn per case (1-3 balls per game, u
         "m2 is not running); hand-over scenarios are injected: a timed pause or device progress right before the ball "
         "ends, then 3-6 operations of the next player without m2 (control events, step events, waiting).  "
         "non-trivial = >= 3 distinct achievement readings and a hand-over out of a running m2 followed by >= 3 "
-        "operations of the next player without m2")
+        "operations of the next player without m2.  suite 'groups' (fed to the model GModel.v): the 'game' configuration, "
+        "2-4 players, 2-3 balls, plus three persisted shots g1..g3 in a shot group (profile with 2-4 states, loop or "
+        "not, a rotation_pattern of 2-5 entries that always mixes both directions, state_names_to_not_rotate in a "
+        "quarter of the cases, rotation starting disabled (enable_rotation_events configured) in 30 %), a score queue on "
+        "`score` (chimes for 1000/100/10, 125 ms per chime) with three score_queue_player entries drawn from "
+        "{10..2100}, three achievements in an achievement group (auto_select, allow_selection_change_while_disabled, "
+        "disable_while_achievement_started, enable_while_no_achievement_started random; disable_random: true); per ball: "
+        "pattern rotations (30 % of the operations), explicit left/right rotations, rotation on/off, member hits / "
+        "advance / reset / enable / disable, achievement life-cycle preludes (enable members, enable the group, select), "
+        "group rotate / start_selected / select events, queued scoring; 45 % of the balls end with 1-3 queue entries "
+        "posted back to back and the drain 1/16 s later (entries still queued while the ball_ending event is held), the "
+        "others with a plain drain; up to 2 games.  non-trivial = a ball with pattern rotations stopped at a cursor "
+        "position whose direction differs from the head of the pattern, a later ball (another player / new game) had "
+        "pattern rotations, and a hand-over happened with >= 2 entries queued")
 TRUSTED_BASE = [
     "Coq 8.16.1 kernel (coqc), vm_compute for evaluating the model in the correspondence run; no native_compute",
     "axioms: none (every Print Assumptions is 'Closed under the global context')",
-    "hand-written models coq/C11/Model.v (game, devices) and coq/C11/XModel.v (second layer: multi-variable "
-    "variable_player entries, machine variables, optional modes with restart_on_next_ball, achievements) tied to "
+    "hand-written models coq/C11/Model.v (game, devices), coq/C11/XModel.v (second layer: multi-variable "
+    "variable_player entries, machine variables, optional modes with restart_on_next_ball, achievements) and "
+    "coq/C11/GModel.v (third layer: shot group rotation cursor / rotation_enabled, score queue) tied to "
     "/repo by correspondence: harness/props/c11.py runs a real game (MpfFakeGameTestCase machine on the virtual "
     "clock) and the model on the same histories and compares all player variables, device reads, running modes, "
     "restart lists, achievement records, machine variables and player_<var> events after every operation",
@@ -69,6 +89,15 @@ TRUSTED_BASE = [
     "MPF's EventManager, Mode start/stop machinery, config loading, template/condition evaluation and the game loop "
     "coroutine are exercised for real but modelled only through their effect on player variables (which player a "
     "handler is bound to, order of posts, condition n==K on the event argument)",
+    "suite 'groups': the table MPF event -> model operation for the group's own events (ev_grp_rot -> GRotate None, "
+    "ev_grp_rotl/rotr, ev_grp_enrot/disrot, ev_sq<k> -> entries of GSq) lives in the harness; the score queue is "
+    "modelled at the granularity of the operation (entries queued, optional drain 1/16 s later, then 5.9 s of virtual "
+    "time so that every chime has been played): asyncio's interleaving of the queue task with the held ball_ending "
+    "event is exercised for real and modelled through its result (all entries land before the ball ends)",
+    "generic cache oracle: instance attributes are compared after canonicalisation (primitives, containers of "
+    "primitives, device names, LogicBlockState content; any other object by its type name); ignored by name: the "
+    "device's wiring (machine, name, config, mode, tags, label, platform, logging fields, handler-key bookkeeping "
+    "event_keys) and Timer.ticks_remaining (derived display value, stale until the first tick)",
 ]
 ASSUMPTIONS = [
     "every MPF event of the alphabet drives at most one action per device; one event may drive several devices "
@@ -86,18 +115,25 @@ ASSUMPTIONS = [
     "not modelled in Coq, validated by the oracle-only suite 'ext': timers (a timer's tick variable is "
     "re-initialised at every mode start by design; its ticks depend on the clock phase), a second game mode WITH "
     "DEVICES that is not running for the next player, shots with persist_enable: false, non-persisted logic "
-    "blocks, machine-wide control events.  Not covered at all: sequences, shot groups, state machines, ball "
-    "holds / multiball locks, logic_block_timeout, persist_enable: false on devices other than shots, "
-    "variable_player block:/subscriptions, Player.monitor_enabled",
+    "blocks, machine-wide control events.  Achievement groups (suite 'groups') are covered by the oracle only.  Not "
+    "covered at all: sequences, state machines, ball holds / multiball locks, logic_block_timeout, persist_enable: "
+    "false on devices other than shots, variable_player block:/subscriptions, Player.monitor_enabled, bonus mode "
+    "entries, extra_ball awards and delayed variable_player entries ({event: delay}), shot group enable / disable / "
+    "reset / restart events (the member shots' own events are used), rotate events with an explicit direction kwarg",
+    "suite 'groups': every score queue entry is >= 1 and has at most 14 chimes in total per operation; the member "
+    "shots of the group are distinct shots of the base configuration; rotation_pattern is not empty",
+    "known finding achievement-group-rotation-flag-stuck (known_findings.d/C11.json; proposed repair "
+    "fixes/C11-achievement-group-rotation-flag-stuck.patch): after it has struck in a case the achievement group's "
+    "automatic behaviour is dead for the rest of that case",
     "suite 'ext': counter control events (add/subtract/jump) are delivered also while mode m2 is not running; since "
     "the repair 6a5039f in /repo (fixes/C11-counter-control-events-without-state.patch) they are ignored then; the "
     "crash the repair removed would be reported as VIOLATION counter-control-event-without-state (the finding is "
     "recorded as fixed, not as known)",
 ]
 DESIGN_REF = "DESIGN.md section 3, C11"
-TECHNIQUE = ("Coq proof over an executable Gallina model in two layers (game + devices; multi-variable variable_player, "
-             "machine scope, restart_on_next_ball modes, achievements) + differential correspondence (vm_compute) + "
-             "direct trace oracle")
+TECHNIQUE = ("Coq proof over an executable Gallina model in three layers (game + devices; multi-variable variable_player, "
+             "machine scope, restart_on_next_ball modes, achievements; shot group rotation + score queue) + differential "
+             "correspondence (vm_compute) + direct trace oracle incl. a generic device-attribute oracle")
 LEVEL_TEXT = ("Machine-checked proof (Coq) over an executable model of Player.__setattr__, persisted logic-block/shot "
               "state, achievements, variable_player and the turn hand-over: for every configuration and every history, "
               "an operation changes only the variables of the player whose turn it is or whom a variable_player "
@@ -108,12 +144,16 @@ LEVEL_TEXT = ("Machine-checked proof (Coq) over an executable model of Player.__
               "touch no player, a new game does not depend on the previous one and starts every player from the "
               "configured initial values, and every assignment posts exactly one player_<var> event iff it is a new "
               "variable or an effective change of an int/str/float, with value, prev_value, change = value - prev_value "
-              "and the owning player's number.  The model is tied to the working tree by running both on the same "
-              "generated histories on every run.")
+              "and the owning player's number; a shot group's rotation cursor and rotation_enabled are reset by every "
+              "ball start, any sequence of rotations changes only the current player's variables as a function of his "
+              "own variables and the rotations of this ball, and everything queued in a score queue during a turn is "
+              "added to that turn's player before the hand-over.  The model is tied to the working tree by running "
+              "both on the same generated histories on every run.")
 LEVEL_NOTE = ("Trusted: Coq kernel + vm_compute; no axioms.  Model hand-written; the correspondence run validates it "
               "against a real game on every run.  Event dispatch order between different variables is not compared "
               "(events are compared per player and variable, in order).  Timers and game modes with devices that do "
-              "not run for the next player are covered by the direct oracle only (suite 'ext'), not by the proof.")
+              "not run for the next player are covered by the direct oracle only (suite 'ext'), not by the proof; so are "
+              "achievement groups (suite 'groups') and the generic device-attribute oracle.")
 
 # ------------------------------------------------------------------------------------------------
 # name tables (shared with Model.v: n_index .. n_restart_modes)
@@ -121,7 +161,9 @@ VARS = {"index": 1, "number": 2, "score": 3, "ball": 4, "extra_balls": 5, "resta
         "pv_int": 10, "pv_str": 11, "v_str": 12, "v_int": 13, "bonus": 14, "v_float": 15, "bonus2": 16,
         "c1_state": 20, "c2_state": 21, "a1_state": 30,
         "shot_sh1": 40, "shot_sh1_enabled": 41, "shot_sh2": 42, "shot_sh2_enabled": 43,
-        "xa": 50, "xb": 51, "xf": 52, "xs": 53}
+        "xa": 50, "xb": 51, "xf": 52, "xs": 53,
+        # suite 'groups': the member shots of the shot group
+        "shot_g1": 44, "shot_g1_enabled": 45, "shot_g2": 46, "shot_g2_enabled": 47, "shot_g3": 48, "shot_g3_enabled": 49}
 MVARS = {"mv_a": 60, "mv_f": 61, "mv_s": 62}      # machine variables written by variable_player (suite 'turns')
 UNKNOWN_VAR = 999
 EVENTS = {}
@@ -157,8 +199,25 @@ X_ACH_EVENTS = ["ev_%s_%s" % (_a, _s) for _a in ("ach1", "ach2")
 for _n in X_ENTRY_EVENTS + ["ev_y%d" % _k for _k in X_MODES] + \
         ["ev_m%d_%s" % (_k, _s) for _k in X_MODES for _s in ("start", "stop")] + X_ACH_EVENTS:
     _ev(_n)
+# suite 'groups' (harness/props/c11_groups.py): member shots g1..g3, shot group, score queue entries, achievement group
+for _c in ("g1", "g2", "g3"):
+    for _s in ("", "_en", "_dis", "_reset", "_adv", "_restart"):
+        _ev("ev_%s%s" % (_c, _s))
+for _n in ["ev_grp_rot", "ev_grp_rotl", "ev_grp_rotr", "ev_grp_enrot", "ev_grp_disrot", "ev_sq1", "ev_sq2", "ev_sq3",
+           "ev_agrp_en", "ev_agrp_dis", "ev_agrp_start", "ev_agrp_sel", "ev_agrp_rotr", "ev_agrp_rotl"] + \
+        ["ev_%s_%s" % (_a, _s) for _a in ("ga1", "ga2", "ga3") for _s in ("en", "start", "done", "stop", "dis", "sel")]:
+    _ev(_n)
 # coincidence: the event that counts counter c2 also advances shot sh2 (two devices, one dispatch)
-ADV_EVENT = {"sh1": "ev_sh1_adv", "sh2": "ev_c2"}
+ADV_EVENT = {"sh1": "ev_sh1_adv", "sh2": "ev_c2", "g1": "ev_g1_adv", "g2": "ev_g2_adv", "g3": "ev_g3_adv"}
+
+
+def shot_names(c):
+    return ("sh1", "sh2") + (("g1", "g2", "g3") if c.get("g") else ())
+
+
+def is_drain(op):
+    """operations that make the ball in play drain (suite 'groups': score queue entries followed by a drain)"""
+    return op[0] in ("drain", "end_game") or (op[0] == "sq" and bool(op[2]))
 PROGRESS = ["ev_c1", "ev_c1", "ev_c2", "ev_a1_0", "ev_a1_1", "ev_a1_2", "ev_sh1", "ev_sh2", "ev_sh1_adv", "ev_score"]
 
 
@@ -343,6 +402,10 @@ def build_config(c):
             allmodes[mode]["variable_player"][en["ev"]] = vp_entry(en["sets"])
         machine["modes"] = ["m1"] + ["m%d" % md["k"] for md in x["modes"]]
         return machine, allmodes
+    if c.get("g"):
+        from props import c11_groups as _G
+        _G.extend_config(c, machine, m1)
+        return machine, {"m1": m1}
     if c.get("ext"):
         x = c["ext"]
         m1["achievements"] = ach_config(x)
@@ -653,6 +716,7 @@ def tagv(v):
 def run_impl(case):
     import logging
     from rig import FakeGameRig
+    from props import c11_groups as _G
     logging.disable(logging.CRITICAL)
     machine_cfg, modes = build_config(case["cfg"])
     for attempt in range(3):
@@ -675,6 +739,37 @@ def run_impl(case):
         for v in list(VARS) + ["m1_t1_tick", "achievements"] + M2_VARS:
             m.events.add_handler("player_" + v, rec, priority=10 ** 7, var=v)
             registered.add(v)
+
+        # ---- generic cache oracle: instance attributes of every device of a game mode right after the mode's
+        # devices were loaded (mode_<name>_starting) against a player who never had this mode loaded in this game:
+        # they must equal the attributes at the very first such load on this machine
+        cache = {"base": {}, "seen": set(), "game": None, "diff": [], "step": 0}
+
+        def on_mode_starting(mode_name, **kwargs):
+            del kwargs
+            g_ = m.game
+            if not g_ or not g_.player:
+                return
+            if cache["game"] is not g_:
+                cache["game"] = g_
+                cache["seen"] = set()
+            key = (mode_name, g_.player.index)
+            if key in cache["seen"]:
+                return
+            cache["seen"].add(key)
+            snapshot = _G.mode_snapshot(m.modes[mode_name])
+            if mode_name not in cache["base"]:
+                cache["base"][mode_name] = snapshot
+                return
+            base = cache["base"][mode_name]
+            for dev in sorted(set(base) | set(snapshot)):
+                a, b_ = base.get(dev, {}), snapshot.get(dev, {})
+                for attr in sorted(set(a) | set(b_)):
+                    if a.get(attr, "<unset>") != b_.get(attr, "<unset>"):
+                        cache["diff"].append([cache["step"], mode_name, dev, attr, repr(a.get(attr, "<unset>"))[:120],
+                                              repr(b_.get(attr, "<unset>"))[:120], g_.player.index + 1])
+        for mode_name in modes:
+            m.events.add_handler("mode_%s_starting" % mode_name, on_mode_starting, priority=10 ** 7, mode_name=mode_name)
 
         def _add_ball(**kwargs):
             del kwargs
@@ -703,7 +798,7 @@ def run_impl(case):
             d = m.accruals["a1"]
             reads.append(None if d.value is None else
                          ["lb", bool(d.enabled), bool(d.completed), ["l", list(d.value)], ["bool", "bool"]])
-            for n in ("sh1", "sh2"):
+            for n in shot_names(case["cfg"]):
                 d = m.shots[n]
                 reads.append(tagv(d.state))
                 reads.append(tagv(d.enabled))
@@ -726,6 +821,8 @@ def run_impl(case):
                     m2reads[n] = [tagv(d.state), bool(d.enabled), d.state_name]
             d = {"ingame": bool(g), "cur": cur, "players": players, "reads": reads, "xreads": xreads,
                  "mode": bool(m.modes["m1"].active), "mode2": mode2, "m2reads": m2reads}
+            if case["cfg"].get("g"):
+                d["g"] = _G.dump_g(m)
             if case["cfg"].get("x"):
                 want = ["m%d" % k for k in X_MODES]
                 d["xrun"] = [int(x.name[1:]) for x in m.mode_controller.active_modes if x.name in want]
@@ -737,6 +834,7 @@ def run_impl(case):
         err = None
         for op in case["ops"]:
             del evs[:]
+            cache["step"] = len(steps)
             try:
                 if op[0] == "start":
                     r.hit_and_release_switch("s_start")
@@ -749,6 +847,8 @@ def run_impl(case):
                 elif op[0] == "postn":
                     m.events.post(op[1], n=op[2])
                     r.advance(1)
+                elif op[0] == "sq":
+                    _G.do_sq(r, m, op)
                 elif op[0] == "drain":
                     if m.game and m.game.balls_in_play > 0:
                         m.events.post_relay("ball_drain", balls=1)
@@ -773,7 +873,7 @@ def run_impl(case):
             d = dump()
             d["events"] = [list(e) for e in evs]
             steps.append(d)
-        return {"steps": steps, "error": err}
+        return {"steps": steps, "error": err, "cache": cache["diff"]}
     finally:
         try:
             r._exception = None
@@ -833,11 +933,7 @@ def ccfg_term(c):
             blit(k["down"]), blit(k["roc"]), blit(k["doc"]), blit(k["start_enabled"]))
 
     def shot(n):
-        k = c[n]
-        return "(mkS %d %d %d %d %d %d %d %d %d %s %s)" % (
-            VARS["shot_" + n], VARS["shot_%s_enabled" % n], EVENTS["ev_" + n], EVENTS["ev_%s_en" % n],
-            EVENTS["ev_%s_dis" % n], EVENTS["ev_%s_reset" % n], EVENTS[ADV_EVENT[n]], EVENTS["ev_%s_restart" % n],
-            k["nstates"], blit(k["loop"]), blit(k["start_enabled"]))
+        return shot_term(c, n)
     a = c["a1"]
     acc = "(mkA %d %s %d %d %d %d %d %s %s %s)" % (
         VARS["a1_state"], coqlist(str(EVENTS["ev_a1_%d" % j]) for j in range(3)), EVENTS["ev_a1_en"],
@@ -848,7 +944,15 @@ def ccfg_term(c):
                   "(%d, %s)" % (VARS["pv_str"], cval(["s", c["pv_str"]]))])
     return "(mkCfg %d %d %s %s %s %s %s)" % (
         c["bpg"], c["maxp"], pv, coqlist([counter("c1", "c1_state"), counter("c2", "c2_state")]), coqlist([acc]),
-        coqlist([shot("sh1"), shot("sh2")]), vps)
+        coqlist([shot(n) for n in shot_names(c)]), vps)
+
+
+def shot_term(c, n):
+    k = c[n]
+    return "(mkS %d %d %d %d %d %d %d %d %d %s %s)" % (
+        VARS["shot_" + n], VARS["shot_%s_enabled" % n], EVENTS["ev_" + n], EVENTS["ev_%s_en" % n],
+        EVENTS["ev_%s_dis" % n], EVENTS["ev_%s_reset" % n], EVENTS[ADV_EVENT[n]], EVENTS["ev_%s_restart" % n],
+        k["nstates"], blit(k["loop"]), blit(k["start_enabled"]))
 
 
 def op_term(op):
@@ -946,7 +1050,7 @@ def initial_reads(c):
     for n in ("c1", "c2"):
         out.append(["lb", c[n]["start_enabled"], False, ["i", c[n]["start"]], ["bool", "bool"]])
     out.append(["lb", c["a1"]["start_enabled"], False, ["l", [False, False, False]], ["bool", "bool"]])
-    for n in ("sh1", "sh2"):
+    for n in shot_names(c):
         out.append(["i", 0])
         out.append(["b", c[n]["start_enabled"]])
     return out
@@ -958,17 +1062,18 @@ def fresh_store(c, i):
 
 
 DEVICE_VARS = ("c1_state", "c2_state", "a1_state", "shot_sh1", "shot_sh1_enabled", "shot_sh2", "shot_sh2_enabled",
-               "achievements", "m1_t1_tick")      # (mode m2 never runs at the moment a new game is observed)
+               "achievements", "m1_t1_tick",      # (mode m2 never runs at the moment a new game is observed)
+               "shot_g1", "shot_g1_enabled", "shot_g2", "shot_g2_enabled", "shot_g3", "shot_g3_enabled")
 
 
-def reads_from_store(store):
+def reads_from_store(store, shots=("sh1", "sh2")):
     """what the devices must read when they are bound to the player owning `store`"""
     d = dict(store)
     out = []
     for n in ("c1_state", "c2_state", "a1_state"):
         v = d.get(n)
         out.append(None if v is None else v[:4] + [["bool", "bool"]])
-    for n in ("sh1", "sh2"):
+    for n in shots:
         out.append(d.get("shot_" + n, ["i", 0]))
         out.append(d.get("shot_%s_enabled" % n, ["i", 0]))
     return out
@@ -1055,6 +1160,17 @@ def oracle(case, out, adjust=None):
         else:
             fails.append({"sig": "exception", "what": "op %d %s: the machine raised: %s" % (k, "/".join(str(y) for y in op), err)})
     c = case["cfg"]
+    # ---- generic: no Python-side cache / cursor of a mode device survives into a load against a fresh player
+    for k, mode_name, dev, attr, was, now, pl in out.get("cache") or []:
+        if c.get("g") and _G.rotation_flag_defect(case, out, k, dev, attr, was, now):
+            # known finding (known_findings.d/C11.json): exactly the flag rotate_right() leaves set on its early return
+            fails.append({"sig": "achievement-group-rotation-flag-stuck",
+                          "what": "op %d: AchievementGroup._rotation_in_progress is still True when mode %s is loaded "
+                                  "for player %d: an earlier rotate request found nothing to rotate" % (k, mode_name, pl)})
+            continue
+        fails.append({"sig": "device-cache-survives-turn",
+                      "what": "op %d: mode %s was loaded for player %d, who never had it loaded in this game, and %s.%s "
+                              "is %s; at the first load on this machine it was %s" % (k, mode_name, pl, dev, attr, now, was)})
     prev = {"ingame": False, "cur": 0, "players": [], "reads": None, "mode": False}
     last_reads = {}         # player index -> device reads when that player's last ball ended
     frozen = {}             # player index -> variables at that player's last turn end (players not at turn)
@@ -1098,8 +1214,8 @@ def oracle(case, out, adjust=None):
         if not prev["ingame"] and not st["ingame"] and ap:
             fails.append({"sig": "players-outside-game", "what": "%s: players exist without a game" % opdesc})
         # ---- a ball started for st["cur"]? -----------------------------------------------------------------
-        ball_started = st["ingame"] and (new_game or (op[0] in ("drain", "end_game") and prev["ingame"] and prev["mode"]))
-        if op[0] in ("drain", "end_game") and prev["ingame"] and prev["mode"]:
+        ball_started = st["ingame"] and (new_game or (is_drain(op) and prev["ingame"] and prev["mode"]))
+        if is_drain(op) and prev["ingame"] and prev["mode"]:
             last_reads[prev["cur"]] = prev["reads"]
         if new_game:
             last_reads = {}
@@ -1122,14 +1238,18 @@ def oracle(case, out, adjust=None):
                                       "with %r" % (opdesc, i + 1, st["reads"], want)})
         # ---- the devices read the current player's variables ---------------------------------------------------
         if st["ingame"] and st["mode"] and ap and st["cur"] < len(ap):
-            if st["reads"] != reads_from_store(ap[st["cur"]]):
+            if st["reads"] != reads_from_store(ap[st["cur"]], shot_names(c)):
                 fails.append({"sig": "device-bound-to-wrong-player",
                               "what": "%s: devices read %r, current player %d holds %r" %
-                                      (opdesc, st["reads"], st["cur"] + 1, reads_from_store(ap[st["cur"]]))})
+                                      (opdesc, st["reads"], st["cur"] + 1, reads_from_store(ap[st["cur"]], shot_names(c)))})
         if st["ingame"] and not st["mode"]:
             fails.append({"sig": "mode-not-running", "what": "%s: game running but the game mode is not active" % opdesc})
         # ---- events ------------------------------------------------------------------------------------------
-        check_events(pp if prev["ingame"] else [], st, fails, opdesc)
+        if op[0] == "sq" and prev["ingame"] and not st["ingame"]:
+            pass        # the game ended in this operation: the queued points were added before (checked by oracle_g on
+            #             the events' player numbers and by the correspondence); no player list is left to chain against
+        else:
+            check_events(pp if prev["ingame"] else [], st, fails, opdesc)
         prev = st
     # one failure per sig is enough
     seen, res = set(), []
@@ -1569,12 +1689,19 @@ def widened_search(seed):
 
 SUITES = [
     Suite("game", gen, run_impl, HDR, coq_case, oracle, shrink, nontrivial,
-          {"quick": 160, "thorough": 6000}, describe=describe, shard=30, case_timeout=120),
+          {"quick": 140, "thorough": 6000}, describe=describe, shard=30, case_timeout=120),
     # validation only (no model): the same game with two achievements and a running timer added to the mode
     Suite("ext", gen_ext, run_impl, None, None, oracle_ext, shrink, nontrivial_ext,
-          {"quick": 100, "thorough": 3000}, describe=describe, case_timeout=120),
+          {"quick": 90, "thorough": 3000}, describe=describe, case_timeout=120),
     # variable_player entries with several variables and `player:` overrides, machine scope, optional game modes
     # with restart_on_next_ball over >= 3 balls per player; fed to the model (coq/C11/XModel.v)
     Suite("turns", gen_x, run_impl, HDR_X, coq_case_x, oracle_x, shrink, nontrivial_x,
-          {"quick": 90, "thorough": 3000}, describe=describe_x, shard=30, case_timeout=120),
+          {"quick": 80, "thorough": 3000}, describe=describe_x, shard=30, case_timeout=120),
 ]
+
+from props import c11_groups as _G      # noqa: E402  (helper module: needs the definitions above)
+
+SUITES.append(
+    # shot group rotation, score queue (both fed to the model coq/C11/GModel.v), achievement group (oracle only)
+    Suite("groups", _G.gen_g, run_impl, _G.HDR_G, _G.coq_case_g, _G.oracle_g, shrink, _G.nontrivial_g,
+          {"quick": 36, "thorough": 1500}, describe=_G.describe_g, shard=30, case_timeout=120))
